@@ -200,7 +200,8 @@ func sortAliases(matchedAliases []ast.Alias) {
 				if paramType.IsReference {
 					refs++
 				}
-				if ddptypes.IsGeneric(paramType.Type) {
+				// also lists of (lists of) a type parameter
+				if _, isGeneric := ddptypes.CastDeeplyNestedGenerics(paramType.Type); isGeneric {
 					gen++
 				}
 			}
